@@ -20,7 +20,7 @@ import (
 
 type c16Entry struct {
 	Path   string `json:"path"`
-	Kind   string `json:"kind"` // file | dir | link
+	Kind   string `json:"kind"` // file | dir | link | fifo
 	Target string `json:"target,omitempty"`
 }
 
@@ -29,7 +29,8 @@ type c16Case struct {
 	Pattern string     `json:"pattern"`
 	Abs     bool       `json:"abs"` // the pattern is to be prefixed with the tree's absolute path
 	// AbsForm varies how that absolute path is written: 1 = the first slash
-	// is escaped, 2 = every slash is escaped, 3 = the first slash is doubled
+	// is escaped, 2 = every slash is escaped, 3 = the first slash is doubled,
+	// 6 / 7 / 8 = three, four, three (one escaped) slashes in front
 	AbsForm int `json:"abs_form,omitempty"`
 	// Neighbours: Match is called with colliding arguments first
 	Neighbours bool `json:"neighbours,omitempty"`
@@ -46,6 +47,11 @@ func buildTree(root string, tree []c16Entry) error {
 		case "link":
 			os.MkdirAll(filepath.Dir(p), 0o755)
 			if err := os.Symlink(e.Target, p); err != nil {
+				return err
+			}
+		case "fifo":
+			os.MkdirAll(filepath.Dir(p), 0o755)
+			if err := syscall.Mkfifo(p, 0o644); err != nil {
 				return err
 			}
 		default:
@@ -97,6 +103,12 @@ func checkC16InTree(root string, c c16Case) (skip string, err error) {
 			r = strings.ReplaceAll(r, "/", `\/`)
 		case 3:
 			r = "/" + r
+		case 6:
+			r = "//" + r // three slashes
+		case 7:
+			r = "///" + r
+		case 8:
+			r = `/\/` + r // three, the one in the middle escaped
 		case 4, 5:
 			// the first component below "/" is not literal
 			if i := strings.IndexByte(r[1:], '/'); i > 1 {
@@ -170,7 +182,7 @@ func checkC16(c c16Case) error {
 
 func init() { reg("C16", "glob", checkC16) }
 
-var c16Names = []string{"a", "b", "ab", "abc", "a-b", "a.d", ".h", ".hid", "é", "日本", "x*", "q?", "[z]", "a b", "sub", "dir", "d2", "A", "a+", "(p)", "t^", "$v", "{c}", "e|f", "-", "~", "a{2}", "aa", "aab", "a{2}b", "x{1,}", "{2}", "b{1,2}c", "bbc", "*a", "a*b", "**", "*.go", `a\b`, `\`,
+var c16Names = []string{"a", "b", "ab", "abc", "a-b", "a.d", ".h", ".hid", "é", "日本", "x*", "q?", "[z]", "a b", "sub", "dir", "d2", "A", "a+", "(p)", "t^", "$v", "{c}", "e|f", "-", "~", "a{2}", "aa", "aab", "a{2}b", "x{1,}", "{2}", "b{1,2}c", "bbc", "*a", "a*b", "**", "*.go", `a\b`, `\`, "...", "....", "..a", ".. ",
 	// long names: the pattern made from them by escaping or bracketing every character is longer than NAME_MAX
 	"L" + strings.Repeat("o", 130), strings.Repeat("*", 100), strings.Repeat("ab", 60)}
 
@@ -273,7 +285,12 @@ func TestC16(t *testing.T) {
 				continue
 			}
 			all = append(all, p)
-			switch rapid.IntRange(0, 6).Draw(rt, "kind") {
+			switch rapid.IntRange(0, 8).Draw(rt, "kind") {
+			case 7:
+				// neither a file nor a directory
+				tree = append(tree, c16Entry{Path: p, Kind: "fifo"})
+			case 8:
+				tree = append(tree, c16Entry{Path: p, Kind: "link", Target: "/dev/null"})
 			case 0, 1, 2:
 				tree = append(tree, c16Entry{Path: p, Kind: "file"})
 			case 3, 4:
@@ -366,7 +383,7 @@ func TestC16(t *testing.T) {
 				}
 				c := c16Case{Tree: tree, Pattern: pat, Abs: rapid.IntRange(0, 7).Draw(rt, "abs") == 0}
 				if c.Abs {
-					c.AbsForm = rapid.SampledFrom([]int{0, 0, 1, 2, 3, 4, 5}).Draw(rt, "abs_form")
+					c.AbsForm = rapid.SampledFrom([]int{0, 0, 1, 2, 3, 4, 5, 6, 7, 8}).Draw(rt, "abs_form")
 				}
 				c.Neighbours = rapid.IntRange(0, 7).Draw(rt, "neighbours") == 0
 				if c.Neighbours {
